@@ -105,6 +105,16 @@ PROPS = {
 
 T_OS = "T-OS: os.path.*, os.makedirs, os.walk, os.scandir, open/print behave as the contracts in contracts/c_external.py say"
 T_LIB = "T-LIB: confuse, argparse, pathspec (gitwildmatch), docutils, cmake behave as documented"
+A_WALK = ("ASSUMED (T-OS), composition on paper: os.walk(top, topdown=True) is modelled per step - each step hands out a "
+          "directory path and two NEW lists of pairwise different names (first step: top itself); which directories later steps "
+          "visit is os.walk's documented behaviour: exactly join(root, d) for the names d left in the step's directory list when "
+          "the consumer asks for the next step, none after a break.  Every per-step fact is a `step` obligation of document()'s "
+          "walk loop, discharged for an arbitrary step; the induction over the steps of a run is not mechanised")
+A_FS = ("directory listings and file kinds (os.scandir, os.path.isdir/isfile/exists) are functions of the path for the duration "
+        "of the run, except for directories the run itself creates with os.makedirs; the input path is not a directory created "
+        "earlier in the same run (precondition of document())")
+A_STRIP = ("RSTWriter.write_to_file opens file.strip(): page and index paths are stated modulo white space around the whole "
+           "path (none when the output directory has no leading white space)")
 TREE_RULE = ("bounded: generated directory trees x random option combinations + fixed multi-step scenarios through the real "
              "cminx.main, compared with independent oracles (expected page set, toctrees, exclusions, byte equality across "
              "runs); distinct = cases with different tree/options; evaluations = cases + native contract evaluations")
@@ -169,27 +179,39 @@ PROPS.update({
         "bounded_rule": BOUNDED_RULE,
     },
     "C13": {
-        "level": "exploration", "drivers": ["drv_tree"],
-        "trusted_base": [T_OS, T_LIB],
-        "assumptions": ["document() (the os.walk loop) is NOT under contract yet: this property is decided by the bounded "
-                        "tree driver only; document_single_file and write_to_file (where each page goes) are proved",
-                        "the oracle re-implements the traversal rules from the property text and uses pathspec itself for "
-                        "pattern matching"],
+        "level": "proof", "drivers": ["drv_tree"],
+        "trusted_base": [T_PY, T_SMT, T_OS, T_LIB],
+        "assumptions": [A_INT, A_TYPES, A_TERM, A_WALK, A_FS, A_STRIP,
+                        "'processed' when auto-exclusion is on: the directory holds a kept file whose name ends in '.cmake' in "
+                        "lower case (the property's quantifier puts a lower-case .cmake file next to mixed-case ones); without "
+                        "-r the walk ends after the first PROCESSED directory (a skipped top directory - outside the quantifier - "
+                        "lets the walk go on)",
+                        "page content = what CMinx produces for the file on its own: every page is produced by the same call "
+                        "document_single_file(file, top, settings') whose contract is proved; settings' differs from the caller's "
+                        "only in rst.prefix (copy.deepcopy contract, T-OS/T-LIB)"],
         "bounded_rule": TREE_RULE,
     },
     "C14": {
-        "level": "exploration", "drivers": ["drv_tree"],
-        "trusted_base": [T_OS, T_LIB],
-        "assumptions": ["document() is NOT under contract yet: decided by the bounded tree driver; Directive.to_text/Option "
-                        "serialisation is proved (C20)"],
+        "level": "proof", "drivers": ["drv_tree"],
+        "trusted_base": [T_PY, T_SMT, T_OS, T_LIB],
+        "assumptions": [A_INT, A_TYPES, A_TERM, A_WALK, A_FS, A_STRIP,
+                        "closure ('every page is reachable, no entry dangles') follows from the step clauses by the walk "
+                        "contract: the '<sub>/index.rst' entries are exactly the directories os.walk descends into; a "
+                        "sub-directory that is descended into but skipped by auto-exclusion (no kept *.cmake file of its own) "
+                        "gets no index.rst - the property's quantifier names such directories; the bounded driver checks "
+                        "reachability on real runs",
+                        "the serialisation of the index page (heading, options, content in order) is proved in C20"],
         "bounded_rule": TREE_RULE,
     },
     "C15": {
-        "level": "exploration", "drivers": ["drv_tree"],
-        "trusted_base": [T_OS, T_LIB],
-        "assumptions": ["document() is NOT under contract yet: decided by the bounded tree driver",
-                        "gitignore semantics of a pattern is pathspec's (T-LIB); patterns are applied to absolute paths; no "
-                        "pattern matches a path component above the input directory (except in the dedicated scenario)"],
+        "level": "proof", "drivers": ["drv_tree"],
+        "trusted_base": [T_PY, T_SMT, T_OS, T_LIB],
+        "assumptions": [A_INT, A_TYPES, A_TERM, A_WALK, A_FS,
+                        "gitignore semantics of a pattern is pathspec's (T-LIB): `excluded(patterns, path)` is uninterpreted; a "
+                        "compiled PathSpec decides like the pattern list it was compiled from (contract of from_lines); patterns "
+                        "are applied to absolute paths, a directory with a trailing separator",
+                        "regardless of listing order / number of matches: the lists os.walk hands out are arbitrary symbolic lists "
+                        "of pairwise different names"],
         "bounded_rule": TREE_RULE,
     },
     "C16": {
@@ -202,27 +224,31 @@ PROPS.update({
                         "union over all subsets, output-directory resolution modes, wrong-type values; distinct = cases",
     },
     "C17": {
-        "level": "exploration", "drivers": ["drv_tree", "drv_pipeline"],
-        "trusted_base": [T_OS, T_LIB],
-        "assumptions": ["functional postconditions (result = spec(content, relative path, settings)) are proved for the "
-                        "aggregator, renderers, writer and document_single_file (C01-C03, C09-C12, C20) and rendering is proved "
-                        "not to modify entries or anything older than the Documenter (frames); document() and main() are not "
-                        "under contract: the run-level statement is decided by the bounded tree driver (moved tree, other cwd, "
-                        "several inputs in one run, hash seeds)"],
+        "level": "other", "drivers": ["drv_tree", "drv_pipeline"],
+        "trusted_base": [T_PY, T_SMT, T_OS, T_LIB],
+        "assumptions": [A_INT, A_TYPES, A_WALK, A_FS,
+                        "functional postconditions (result = spec(content, relative path, settings)) are proved for the "
+                        "aggregator, renderers, writer, document_single_file and now document(): its frame shows that it changes "
+                        "nothing but the ghost file system / stdout (in particular not the caller's Settings: the prefix is "
+                        "written into a deep copy), every page and index path is a function of (output directory, path relative "
+                        "to the input path) and the files of a directory are handled in sorted name order; 'same bytes in every "
+                        "history' is then an argument on paper over these contracts - the run-level statement is decided by the "
+                        "bounded tree driver (moved tree, other cwd, several inputs in one run, hash seeds)"],
+        "explanation": "proof of the frames and functional contracts (document, document_single_file, Documenter, renderers, "
+                       "writer) + labelled bounded byte-equality runs",
         "bounded_rule": TREE_RULE,
     },
     "C18": {
-        "level": "other", "drivers": ["drv_tree"],
+        "level": "proof", "drivers": ["drv_tree"],
         "trusted_base": [T_PY, T_SMT, T_OS],
-        "assumptions": [A_INT, A_TYPES, "I/O errors are not modelled",
-                        "ghost file system: os.makedirs(p) creates p and ancestors only, open(p,'w').write writes p only, print "
-                        "writes one line to stdout (T-OS)",
-                        "document() is not under contract: that every path it hands to makedirs/write_to_file lies below the "
-                        "output directory is covered by the bounded tree driver"],
-        "explanation": "proved (effect contracts over the ghost object WORLD): RSTWriter.write_to_file writes exactly one file, the "
-                       "given path, holding to_text(); document_single_file with an output directory makes exactly that directory "
-                       "and writes exactly one page at out/dirname(rel)/stem.rst and prints nothing; without one it writes nothing "
-                       "and prints exactly str(page)+newline.  bounded: snapshots of a sandbox tree before/after, stdout vs -o run",
+        "assumptions": [A_INT, A_TYPES, A_WALK, A_FS, A_STRIP, "I/O errors are not modelled",
+                        "ghost file system: os.makedirs(p) creates p and ancestors only (FileExistsError when p is a file), "
+                        "open(p,'w').write writes p only, print writes one line to stdout (T-OS)",
+                        "'inside the output directory' is proved as the FORM of every path handed to makedirs/open: "
+                        "join(out, relpath(dir, top)), join(join(out, relpath(dir, top)), 'index.rst') and "
+                        "join(out, join(dirname(relpath(file, top)), stem + '.rst')); that relpath of a descendant has no '..' "
+                        "component is T-OS",
+                        "main() is not under contract (argparse/confuse): the drivers run it"],
         "bounded_rule": TREE_RULE,
     },
     "C19": {
@@ -264,17 +290,18 @@ MANIFEST_TEXT.update({
 
 _NOTE_B = ("bounded stand-in, labelled as such and never counted as proof; trusted: third-party libraries and the OS; "
            "what is proved around it is listed in the evidence file")
+_NOTE_W = _NOTE + "; the composition of per-step contracts over a whole os.walk run is os.walk's trusted contract (paper induction)"
 MANIFEST_TEXT.update({
     "C04": {"text": "Python half proved (aggregator contracts are functions of the lower-cased name, token texts and the cleaned doc; lemmas show the cleaned text is independent of the block indentation); the lexer half (skipped tokens) is a property of the generated ATN under the ANTLR interpreter: assumed, with a bounded metamorphic stand-in (6 layout-variant kinds must give byte-identical reST).", "design_ref": "DESIGN.md 4 C04", "note": _NOTE, "technique": TECH + "; metamorphic bounded stand-in for the lexer half"},
     "C06": {"text": "Proved: the error listener never returns, the Documenter wires a raising listener to lexer AND parser plus the bail strategy, nothing on the path main->...->callbacks swallows an exception, a page is written/printed only after processing returned. Assumed: ANTLR reports every error to listeners. Bounded stand-in: fault injection through the real main.", "design_ref": "DESIGN.md 4 C06", "note": _NOTE, "technique": TECH + "; fault-injection bounded stand-in"},
     "C07": {"text": "Proved: which elements each renderer nests under which directive and the writer's indentation/ordering discipline; stated axiom on reST directive content; docutils acceptance is bounded (generated modules parsed with stub directives).", "design_ref": "DESIGN.md 4 C07", "note": _NOTE, "technique": TECH + "; docutils bounded stand-in"},
     "C12": {"text": "Proved: heading = header character repeated to the title's length (loop invariant + lemma), title setter re-frames; document_single_file hands the Documenter title = page_name(prefix, sep, rel, keep_titles) and module = page_name(..., keep_modules) with rel = relative path (lone file: base name); process_docs puts exactly one module directive first and lets a named @module doccomment set title and module name; enterDocumented_module stores name and text in one module entry and touches nothing else. The default prefix computed in document() is covered by the bounded tree driver.", "design_ref": "DESIGN.md 4 C12", "note": _NOTE, "technique": TECH},
-    "C13": {"text": "Bounded: generated trees x options through the real main against an independent oracle of the page set, plus per-file equality with the single-file run; where each page goes is proved (document_single_file, write_to_file). document() itself is not yet under contract.", "design_ref": "DESIGN.md 4 C13", "note": _NOTE_B, "technique": "bounded run-time check with an independent oracle (contract of document() not yet discharged)"},
-    "C14": {"text": "Bounded: every index.rst of generated trees compared with the oracle (entries exactly once, closed, complete, titles).", "design_ref": "DESIGN.md 4 C14", "note": _NOTE_B, "technique": "bounded run-time check with an independent oracle (contract of document() not yet discharged)"},
-    "C15": {"text": "Bounded: pattern sets (several siblings matching, all files of a directory matching, absolute paths, relative input) against pathspec applied independently.", "design_ref": "DESIGN.md 4 C15", "note": _NOTE_B, "technique": "bounded run-time check with an independent oracle (contract of document() not yet discharged)"},
+    "C13": {"text": "document() is under contract: for an ARBITRARY step of the directory walk (any listing, any order, any settings) it is proved that a skipped directory leaves no trace, that otherwise exactly one directory is created below the output directory, one index.rst is written at its relative path and one page per kept file whose name ends in .cmake in any letter case at out/dirname(rel)/stem.rst (document_single_file's proved contract) and nothing else, that the files handled are exactly the kept ones in sorted order, and that without -r the loop ends after the first processed directory; lone-file and excluded-input branches are function postconditions. How steps compose into a run is os.walk's trusted contract (paper induction).", "design_ref": "DESIGN.md 4 C13", "note": _NOTE_W, "technique": TECH + "; bounded tree driver with an independent oracle as labelled stand-in for the composition over os.walk"},
+    "C14": {"text": "For an arbitrary walk step it is proved that the index page consists of a heading titled prefix (top directory) or prefix+separator+relative path and ONE toctree with option maxdepth 2 whose entries are '<sub>/index.rst' for exactly the sub-directories left in os.walk's own list (recursive mode only; sorted) followed by the base name of every file a page is written for, each exactly once and in that order, and that this page is what is written to <out>/<rel>/index.rst; serialisation of directive and options is proved in C20. Closure over the whole tree follows with os.walk's trusted contract; the bounded driver checks reachability on real runs.", "design_ref": "DESIGN.md 4 C14", "note": _NOTE_W, "technique": TECH + "; bounded tree driver (reachability from the top index) as labelled stand-in for the composition over os.walk"},
+    "C15": {"text": "The three pruning loops of document() are proved with inductive invariants over arbitrary symbolic listings (kept prefix / untouched rest, counting functions, pairwise different names): after them the walk's own directory list holds exactly the names that match no pattern (and, with auto-exclusion, directly contain a non-excluded .cmake file) - soundness and completeness are separate step obligations, independent of how many siblings match and of the listing order; the files handled are exactly those matching no pattern; an input path that is itself excluded changes nothing (postcondition). Pattern semantics is pathspec's (uninterpreted).", "design_ref": "DESIGN.md 4 C15", "note": _NOTE_W, "technique": TECH + "; bounded tree driver with pathspec as independent oracle as labelled stand-in"},
     "C16": {"text": "The layering is decided inside confuse/argparse; the driver enumerates every option x every subset of sources through the real main (exhaustive for single options) and checks union of exclude filters, output-directory resolution and type rejection.", "design_ref": "DESIGN.md 4 C16", "note": _NOTE_B, "technique": "exhaustive run-time enumeration over the property's finite quantifier (third-party libraries decide it)"},
-    "C17": {"text": "Functional postconditions and frames are proved per function (what each page contains is a function of content, relative path and settings; rendering modifies nothing older than the Documenter); the run-level statement is bounded: byte equality across moved trees, working directories, several inputs per run and hash seeds.", "design_ref": "DESIGN.md 4 C17", "note": _NOTE_B, "technique": "bounded run-time check (byte equality across runs) on top of proved functional contracts"},
-    "C18": {"text": "Effect contracts over a ghost file system / stdout are proved for write_to_file and document_single_file (exactly one page, at the output-relative path, or exactly one print); document()'s paths are covered by sandbox snapshots in the bounded tree driver.", "design_ref": "DESIGN.md 4 C18", "note": _NOTE, "technique": TECH + "; sandbox-snapshot bounded stand-in for document()"},
+    "C17": {"text": "Proved: document() changes nothing but the ghost file system/stdout (not the caller's Settings, not its own inputs), hands every file the same deep-copied settings, derives every written path from (output directory, path relative to the input path) and handles the files of a directory in sorted order; together with the functional contracts of document_single_file, Documenter, aggregator, renderers and writer (content = function of file content, relative path, settings) this gives the statement on paper. The run-level statement (byte equality across moved trees, working directories, several inputs per run, hash seeds) is decided by the bounded tree driver.", "design_ref": "DESIGN.md 4 C17", "note": _NOTE_W, "technique": TECH + "; bounded byte-equality runs decide the run-level statement"},
+    "C18": {"text": "Effect contracts over a ghost file system/stdout are proved for write_to_file, document_single_file and document(): with an output directory every os.makedirs/open target has the form join(out, relpath(dir, top))[/index.rst] or join(out, dirname(relpath(file, top))/stem.rst) and nothing is printed; without one nothing is created or written and exactly one page per CMake file is printed in sorted name order (index pages are not printed); what earlier inputs of the run wrote is left alone (append-only postcondition); conditional frames make 'nothing else changed' a proved frame, not an assumption. main() (argparse/confuse) is exercised by the bounded driver (sandbox snapshots, stdout vs -o).", "design_ref": "DESIGN.md 4 C18", "note": _NOTE_W, "technique": TECH + "; sandbox-snapshot bounded stand-in for main()"},
     "C19": {"text": "Run-time contract on the real cminx_gen_rst through the real cmake -P: argv, output tree equality with the direct CLI run, fatal failure.", "design_ref": "DESIGN.md 4 C19", "note": _NOTE_B, "technique": "bounded run-time contract check of the CMake function (no verifier for CMake script)"},
 })
 
